@@ -708,6 +708,15 @@ def _invalid_table(vd):
     T["BlockReduce.filter: data shorter"] = lambda: vd.BlockReduce(np.mean, spacing=1.0).filter((e, n), d0[:-1])
     T["BlockReduce.filter: weights shorter"] = lambda: vd.BlockReduce(np.average, spacing=1.0).filter((e, n), d0, w0[:-1])
     T["BlockReduce.filter: weight components"] = lambda: vd.BlockReduce(np.average, spacing=1.0).filter((e, n), (d0, d1), (w0,))
+    # a weights tuple that mixes arrays and None (round 8, seed C20-16: "no weights" decided by any() instead of all())
+    T["Vector.fit: weights (array, None)"] = lambda: vd.Vector([vd.Trend(1), vd.Trend(1)]).fit((e, n), (d0, d1), (w0, None))
+    T["VectorSpline2D.fit: weights (None, array)"] = lambda: vd.VectorSpline2D(mindist=0.5, damping=1e-2).fit((e, n), (d0, d1), (None, w0))
+    T["check_fit_input: weights (array, None)"] = lambda: vd.base.utils.check_fit_input((e, n), (d0, d1), (w0, None))
+    T["check_fit_input: weights (array, None) for one component"] = lambda: vd.base.utils.check_fit_input((e, n), d0, (w0, None))
+    T["BlockReduce.filter: weights (array, None)"] = lambda: vd.BlockReduce(np.average, spacing=1.0).filter((e, n), (d0, d1), (w0, None))
+    T["BlockMean.filter: weights (None, array)"] = lambda: vd.BlockMean(spacing=1.0).filter((e, n), (d0, d1), (None, w0))
+    T["train_test_split: weights (array, None)"] = lambda: vd.train_test_split((e, n), (d0, d1), (w0, None), random_state=0)
+    T["cross_val_score: weights (array, None)"] = lambda: vd.cross_val_score(vd.Vector([vd.Trend(1), vd.Trend(1)]), (e, n), (d0, d1), weights=(w0, None))
     T["BlockReduce.filter: neither shape nor spacing"] = lambda: vd.BlockReduce(np.mean).filter((e, n), d0)
     T["BlockMean.filter: data shorter"] = lambda: vd.BlockMean(spacing=1.0).filter((e, n), d0[:-1])
     T["BlockMean.filter: uncertainty without weights"] = lambda: vd.BlockMean(spacing=1.0, uncertainty=True).filter((e, n), d0)
